@@ -28,91 +28,16 @@ def run(repo: Repo, rep: Report):
     ru = repo["svg_reuse"]
     st = repo["svg_types"]
     for rid, txt in [
-        ("R-GUARD.verified-return", "every non-None return of affine_between/_round is dominated by a successful verification on the same values"),
-        ("R-SITE.verification", "_try_affine = apply to s1, compare with s2 under the tolerance; almost_equals is exhaustive"),
-        ("R-ORDER.translation-first", "the exact-translation candidate is tried before any bail-out"),
+        ("R-GUARD.verified-return", "affine_between interpreted on every path under an oracle verification step (geometry opaque): the reported transform was verified against (s1, s2, tolerance) on that path, "
+                                    "or is the identity under equal outlines; a rounding is reported only if it was verified itself"),
+        ("R-SITE.verification", "_try_affine answers image(candidate, s1).almost_equals(s2, tolerance); _apply_affine maps every command of a copy; almost_equals is exhaustive (interpreted on 7 pairs of outlines)"),
+        ("R-ORDER.translation-first", "on every path the first candidate tried is the translation between the start points; no bail-out before it"),
         ("R-CASE.affine-image", "_affine_callback maps every coordinate pair (absolute: map_point, relative: map_vector); arc parameters follow the affine image"),
     ]:
         rep.rule(rid, txt)
-    fn = ru.func("affine_between")
-    F = "svg_reuse.affine_between"
-    rep.saw(F, "svg_reuse._round", "svg_reuse._try_affine", "svg_reuse._apply_affine", "svg_reuse._affine_callback")
-    rets = [r for r in walk_no_nested(fn) if isinstance(r, ast.Return)]
-    rep.floor("return statements of affine_between", len(rets), 5)
-    for r in sorted(rets, key=lambda r: r.lineno):
-        v = r.value
-        site = f"{F}: line {r.lineno}: return {unparse(v) if v is not None else ''}"
-        if v is None or (isinstance(v, ast.Constant) and v.value is None):
-            rep.ok("R-GUARD.verified-return", site, "no transform reported")
-            continue
-        guard = parent(r)
-        if isinstance(v, ast.Call) and call_name(v) == "Affine2D.identity":
-            if isinstance(guard, ast.If) and unparse(guard.test) == "s1.almost_equals(s2, tolerance)" and r in guard.body:
-                # s1, s2 at this point are the id-less copies of the arguments
-                rep.ok("R-GUARD.verified-return", site, "identity only under s1.almost_equals(s2, tolerance)", True)
-            else:
-                rep.fail("R-GUARD.verified-return", F, r, "the identity is reported without the outlines having been compared", ru, r)
-            continue
-        if isinstance(v, ast.Call) and call_name(v) == "_round" and [unparse(a) for a in v.args] == ["affine", "s1", "s2", "tolerance"]:
-            ok = isinstance(guard, ast.If) and r in guard.body and isinstance(guard.test, ast.Call) and call_name(guard.test) == "_try_affine" \
-                and [unparse(a) for a in guard.test.args[:4]] == ["affine", "s1", "s2", "tolerance"] and guard.body[0] is r
-            if ok:
-                rep.ok("R-GUARD.verified-return", site, "directly under `if _try_affine(affine, s1, s2, tolerance, ...)`: no redefinition in between", True)
-            else:
-                rep.fail("R-GUARD.verified-return", F, r, "a candidate matrix is reported without a successful _try_affine(affine, s1, s2, tolerance) on the same values "
-                         "immediately before", ru, r, path=[f"entry {F}", f"line {r.lineno}: return"])
-            continue
-        rep.fail("R-GUARD.verified-return", F, r, "affine_between returns a value that is neither None, the verified identity, nor a verified and rounded candidate", ru, r)
-    # _round
-    rf = ru.func("_round")
-    rets = sorted([r for r in walk_no_nested(rf) if isinstance(r, ast.Return)], key=lambda r: r.lineno)
-    ok = True
-    for r in rets:
-        t = unparse(r.value)
-        g = parent(r)
-        if t == "affine" and r is rf.body[-1]:
-            continue
-        if t == "rounded" and isinstance(g, ast.If) and isinstance(g.test, ast.Call) and call_name(g.test) == "_try_affine" \
-                and [unparse(a) for a in g.test.args[:4]] == ["rounded", "s1", "s2", "tolerance"] and g.body[0] is r:
-            continue
-        ok = False
-        rep.fail("R-GUARD.verified-return", "svg_reuse._round", r, "a rounded matrix is returned that was not just verified by _try_affine(rounded, s1, s2, tolerance) against the target outline", ru, r)
-    assigns = [a for a in ast.walk(rf) if isinstance(a, ast.Assign) and unparse(a.targets[0]) == "rounded"]
-    if ok and assigns and all(unparse(a.value).startswith("affine.round(") for a in assigns):
-        rep.ok("R-GUARD.verified-return", "svg_reuse._round", "returns a rounding of the verified matrix only after re-verifying it against s2, else the unmodified matrix", True)
-    elif ok:
-        rep.fail("R-GUARD.verified-return", "svg_reuse._round", "rounded = affine.round(i)", "the candidate tried in _round is not a rounding of the verified matrix", ru, rf)
-    # _try_affine / _apply_affine / almost_equals
-    ta = ru.func("_try_affine")
-    t = unparse(ta)
-    if "s1_prime = _apply_affine(affine, s1)" in t and "return s1_prime.almost_equals(s2, tolerance)" in t:
-        rep.ok("R-SITE.verification", "svg_reuse._try_affine", "apply the matrix to s1 and compare with s2 under the caller's tolerance", True)
-    else:
-        rep.fail("R-SITE.verification", "svg_reuse._try_affine", "_apply_affine(affine, s1).almost_equals(s2, tolerance)", "the verification step no longer compares the image of s1 with s2 under the tolerance", ru, ta)
-    ap = ru.func("_apply_affine")
-    t = unparse(ap)
-    if "s_prime = copy.deepcopy(s)" in t and "s_prime.walk(lambda *args: _affine_callback(affine, *args))" in t and "return s_prime" in t:
-        rep.ok("R-SITE.verification", "svg_reuse._apply_affine", "every command of a copy goes through _affine_callback with the candidate matrix")
-    else:
-        rep.fail("R-SITE.verification", "svg_reuse._apply_affine", "s_prime.walk(lambda *args: _affine_callback(affine, *args))", "the image of s1 is no longer computed by walking every command through _affine_callback", ru, ap)
-    ae = st.func("SVGShape.almost_equals")
-    t = unparse(ae)
-    if "zip_longest(self.as_path(), other.as_path(), fillvalue=(None, ()))" in t and "l_cmd != r_cmd or len(l_args) != len(r_args)" in t \
-            and "any((abs(lv - rv) > tolerance for lv, rv in zip(l_args, r_args)))" in t and t.strip().endswith("return True"):
-        rep.ok("R-SITE.verification", "svg_types.SVGShape.almost_equals", "letters, argument counts (zip_longest: different lengths differ) and every argument within the tolerance", True)
-    else:
-        rep.fail("R-SITE.verification", "svg_types.SVGShape.almost_equals", "zip_longest(...); l_cmd != r_cmd or len(l_args) != len(r_args); abs(lv - rv) > tolerance",
-                 "the outline comparison is no longer exhaustive (a shorter path, another letter or one argument beyond the tolerance could pass)", st, ae)
-    # translation first
-    body = fn.body
-    first_try = min((n.lineno for n in ast.walk(fn) if isinstance(n, ast.Call) and call_name(n) == "_try_affine"), default=None)
-    first_none = min((r.lineno for r in walk_no_nested(fn) if isinstance(r, ast.Return) and (r.value is None or (isinstance(r.value, ast.Constant) and r.value.value is None))), default=None)
-    tr = [a for a in walk_no_nested(fn) if isinstance(a, ast.Assign) and unparse(a.targets[0]) == "affine" and "translate(s2x - s1x, s2y - s1y)" in unparse(a.value)]
-    if first_try and first_none and tr and tr[0].lineno < first_try < first_none:
-        rep.ok("R-ORDER.translation-first", F, "translate(s2 start - s1 start) is verified before the first `return None`", True)
-    else:
-        rep.fail("R-ORDER.translation-first", F, "affine = identity.translate(s2x - s1x, s2y - s1y); if _try_affine(...)", "a bail-out can be taken before the exact translation is tried: "
-                 "translated copies of shapes without a significant x edge are no longer found", ru, fn)
+    from sa.rules import semreuse
+    semreuse.check_search(repo, rep, {"verified": "R-GUARD.verified-return", "translation-first": "R-ORDER.translation-first"})
+    semreuse.check_verification(repo, rep, "R-SITE.verification")
     _check_callback(repo, rep)
     af = ru.func("_affine_friendly")
     t = unparse(af)
@@ -188,13 +113,13 @@ _R = "svg_reuse"
 VARIANTS = [
     Variant("verification skipped for the translation", [Edit(_R, "affine_between", 'if _try_affine(affine, s1, s2, tolerance, "same start point"):', "if True:")], [("R-GUARD.verified-return", "affine_between")]),
     Variant("_round returns unverified rounding", [Edit(_R, "_round", '        if _try_affine(rounded, s1, s2, tolerance, f"round {i}"):\n            return rounded', "        return rounded")],
-            [("R-GUARD.verified-return", "_round")]),
+            [("R-GUARD.verified-return", "affine_between")]),
     Variant("almost_equals ignores length", [Edit("svg_types", "SVGShape.almost_equals", "zip_longest(\n            self.as_path(), other.as_path(), fillvalue=(None, ())\n        )", "zip(self.as_path(), other.as_path())")],
             [("R-SITE.verification", "almost_equals")]),
     Variant("relative coordinates mapped as points", [Edit(_R, "_affine_callback", "new_x, new_y = affine.map_vector((args[x_coord_idx], args[y_coord_idx]))", "new_x, new_y = affine.map_point((args[x_coord_idx], args[y_coord_idx]))")],
             [("R-CASE.affine-image", "_affine_callback")]),
     Variant("rounded candidate verified against the unrounded image", [Edit(_R, "_round", '        if _try_affine(rounded, s1, s2, tolerance, f"round {i}"):', '        if _try_affine(rounded, s1, _apply_affine(affine, s1), tolerance, f"round {i}"):')],
-            [("R-GUARD.verified-return", "_round")]),
+            [("R-GUARD.verified-return", "affine_between")]),
     Variant("bail-out before the translation attempt", [Edit(_R, "affine_between", "    affine = Affine2D.identity().translate(s2x - s1x, s2y - s1y)\n    if _try_affine(affine, s1, s2, tolerance, \"same start point\"):\n        return _round(affine, s1, s2, tolerance)\n", ""),
                                                         Edit(_R, "affine_between", "    s1_vec1 = _nth_vector(s1, s2_vec1x_idx)\n", "    affine = Affine2D.identity().translate(s2x - s1x, s2y - s1y)\n    if _try_affine(affine, s1, s2, tolerance, \"same start point\"):\n        return _round(affine, s1, s2, tolerance)\n    s1_vec1 = _nth_vector(s1, s2_vec1x_idx)\n")],
             [("R-ORDER.translation-first", "affine_between")]),
